@@ -42,34 +42,36 @@ theorem readonly_safe (fs : List Field) (sc : Stmt) (hd : ReadonlySafe fs sc = t
     ∀ f ∈ fs, (run fuel sc st os).st.cur f = st.cur f :=
   readonly_safe_aux fs sc hd fuel st os hwf hro hne
 
-/-! ## T11.2 — every extracted mutator is disciplined, or is one of the listed known findings
+/-! ## T11.2 — every extracted public mutator passes the discipline
 
-Full statement wanted: `∀ m ∈ Gen.C11.scripts, Disciplined m.fields m.body`. It does NOT hold on the current tree:
-see `exempt`. `all_disciplined_partial` is the full statement minus exactly these names; it is re-decided against
-the scripts extracted from the current source on every run (on the tree before the fixes listed in
-`known/C11.json` it failed for 17 mutators, each a genuine defect replayed on the implementation). -/
+Re-decided against the scripts extracted from the current source on every run. (On the tree at the start of the
+build round it failed for 17 mutators and later for `CSSStyleSheet.insertRule/add`; each was a genuine defect,
+replayed on the implementation and fixed since: `known/C11.json`.) -/
 
-/-- mutators exempted from `all_disciplined_partial`, with the reason (a name stays here harmlessly if the source
-changes so that its script becomes disciplined) -/
-def exempt : List String := [
-  -- the rejecting path undoes an in-place insertion by search-and-delete (cssstylesheet.py:815-826, fix 3ec898a for
-  -- finding C11-nsinsert-kept): no save/restore shape the discipline can validate. Covered by
-  -- `all_disciplined_guarded` (every other path), the oracle and the trace correspondence (that path).
-  "CSSStyleSheet.insertRule", "CSSStyleSheet.add"]
-
-/-- **T11.2 (partial)** every extracted public mutator passes the discipline, except the names in `exempt` -/
-theorem all_disciplined_partial :
-    (Gen.C11.scripts.all fun m => Disciplined m.fields m.body || exempt.contains m.name) = true := by
+/-- **T11.2** `∀ m ∈ scripts, Disciplined m` (as a computation, for the kernel) -/
+theorem all_disciplined : (Gen.C11.scripts.all fun m => Disciplined m.fields m.body) = true := by
   decide +kernel
 
-/-- **T11.2 (guarded part)** the mutators with a guarded variant pass the discipline on every path on which the
-guarded statement (`self._cleanNamespaces()` inside `CSSStyleSheet.insertRule`) does not raise -/
-theorem all_disciplined_guarded :
-    (Gen.C11.scriptsGuarded.all fun m => Disciplined m.fields m.body) = true := by
-  decide +kernel
+/-- **T11.1 + T11.2, the headline**: for EVERY extracted public mutator, EVERY well-formed start state, EVERY
+sequence of sub-parser verdicts and branch decisions: a run that ends with a DOM exception leaves every observable
+field of the object at the value it had before the call. -/
+theorem every_mutator_atomic (m : Script) (hm : m ∈ Gen.C11.scripts) (fuel : Nat) (st : St) (os : Outcomes)
+    (hwf : st.WF) (hexc : (run fuel m.body st os).exit = .exc ∨ (run fuel m.body st os).exit = .roExc) :
+    ∀ f ∈ m.fields, (run fuel m.body st os).st.cur f = st.cur f :=
+  disciplined_atomic m.fields m.body (List.all_eq_true.mp all_disciplined m hm) fuel st os hwf hexc
 
-/-- the guarded list is not empty and covers `insertRule` (non-vacuity) -/
-example : (Gen.C11.scriptsGuarded.map (·.name)).contains "CSSStyleSheet.insertRule" = true := by decide
+/-- the list is not empty and the hypotheses are satisfiable: the script of `CSSStyleSheet.cssText` is in it, and
+with the decision sequence "first sub-parser raises" it does end with a DOM exception from a well-formed state -/
+example : (Gen.C11.scripts.map (·.name)).contains "CSSStyleSheet.cssText" = true := by decide
+example : (St.init false).WF := by
+  intro (f : Nat)
+  show (if f < 1000000 then f else 0) < 2000000
+  split
+  · rename_i h; exact Nat.lt_trans h (by decide)
+  · decide
+
+/-- … and a run that does end with a DOM exception exists (guard passed, the sub-parser raises) -/
+example : (run 10 (seqs [.guard, .mayRaise, .assign 0]) (St.init false) [true]).exit = .exc := by decide
 
 /-- mutators exempted from `all_readonly_safe`, with the reason -/
 def exemptReadonly : List String := [
